@@ -19,7 +19,7 @@ import (
 
 // ---------------------------------------------------------------- generators shared by C05/C06/C10
 
-var nameShapes = []string{"plain", "long", "max", "stack", "ditto", "nul", "binary", "dots", "one"}
+var nameShapes = []string{"plain", "long", "max", "stack", "ditto", "nul", "binary", "dots", "one", "truncated", "nl-end", "nl-mid", "ditto-first", "stack-nodots"}
 
 // genName returns a counter name of the given shape, unique through uniq.
 func genName(r *verifrt.Rand, shape string, uniq int) string {
@@ -50,6 +50,16 @@ func genName(r *verifrt.Rand, shape string, uniq int) string {
 		return u + "|" + string(b)
 	case "dots":
 		return u + ".a.b..c."
+	case "truncated": // what EncodeStack produces for an over-long stack
+		return "deep/" + u + "\nexample.com/p.f:+1,+0x1\n\".g:+2,+0x2\ntruncated\n"
+	case "nl-end":
+		return u + "\n"
+	case "nl-mid":
+		return u + "\n\n\nx.y\n\n"
+	case "ditto-first": // a ditto mark with nothing before it
+		return u + "\n\".f:+1\n\".g:+2"
+	case "stack-nodots":
+		return u + "\nmain\nnodots\n\"`"
 	}
 	return u
 }
